@@ -612,3 +612,16 @@ Definition step_n (pt : ptab) (s : state) (x : nop) : state * obs :=
   | NListen n => listen pt s n
   | NUnlisten n => out s n Done
   end.
+
+(* ================================================================== *)
+(* Fifth wave (C13-v2).  A plain class attribute `name = value` in a class body whose name is a class
+   trait of a base gives that trait a new default value (update_traits_class_dict l.530-546:
+   class_traits[name] = ictrait(value), ictrait = the trait of the FIRST base, in order, whose class
+   traits have the name; the value is not validated; CInt coerces it).  The new definition: *)
+Definition redefault (p : policy) (v : Z) : policy :=
+  match p with
+  | PTyped k _ => PTyped k v
+  | PAny _ => PAny v
+  | PReadOnly _ => PReadOnly v          (* a ReadOnly with a given default: never assignable *)
+  | _ => p
+  end.
